@@ -108,7 +108,12 @@ func runCmd(dir string, env []string, timeout time.Duration, name string, args .
 				code = ee.ExitCode()
 			}
 		}
-		return cmdResult{Out: buf.String(), Exit: code}
+		out := buf.String()
+		if code != 0 && strings.TrimSpace(out) == "" {
+			// killed from outside; scratch.ToolchainTrouble recognises the marker
+			out = fmt.Sprintf("%s (exit code %d)\n", scratch.DiedSilently, code)
+		}
+		return cmdResult{Out: out, Exit: code}
 	case <-ctx.Done():
 		_ = syscall.Kill(-cmd.Process.Pid, syscall.SIGKILL)
 		_ = cmd.Process.Kill()
